@@ -103,6 +103,7 @@ func (x *Exec) nodeAfterCommit(appHash []byte) {
 		}
 	}
 	if ns.blk.upgrade != "" {
+		shapeVersionMap(t, ns.blk.upgrade)
 		must(t.App.UpgradeKeeper.ScheduleUpgrade(t.Ctx(), upgradetypes.Plan{Name: ns.blk.upgrade, Height: t.Height + 1}))
 	}
 	h2 := t.EndBlockCommit()
